@@ -95,6 +95,9 @@ func (data *Data) Deserialize(fr *FrameHeader) error {
 	}
 
 	data.endStream = fr.Flags().Has(FlagEndStream)
+	// Remembered so that writing the frame out again pads it again: the
+	// PADDED flag stays on the frame header either way.
+	data.hasPadding = fr.Flags().Has(FlagPadded)
 	data.b = append(data.b[:0], payload...)
 
 	return nil
